@@ -37,7 +37,7 @@ Seps == {"none", "comments"}
 
 PInit == Init /\ perm = None /\ pblocks = None /\ pmi = None
 PChoose == Choose /\ UNCHANGED <<perm, pblocks, pmi>>
-Permute == /\ pc = "done" /\ Hash % BaseMod = 0
+Permute == /\ pc = "done" /\ HashS % BaseMod = 0
            /\ LET bs == ModelOf(deps, layout).blocks IN
               \E p \in Perms2(bs), sp \in Seps : /\ Valid(bs, p) /\ perm' = [kind |-> p.kind, a |-> p.a, b |-> p.b, sep |-> sp]
                                     /\ pblocks' = ApplyPerm(bs, p)
